@@ -231,10 +231,24 @@ def gen_program(exact, length):
         for f in vars_.values():
             pass
         check_formula(vars_[max(vars_)] if k != "iadd" else vars_[x], "; ".join(txt))
+        if any(len(repr(f.structure)) > 20000 for f in vars_.values()):
+            ops.pop(); txt.pop()
+            break   # runaway growth (e.g. through an aliased object): the program so far is still checked
         snaps.append(snapshot(vars_))
     case = "(%s, [%s], [%s])" % ("true" if exact else "false", "; ".join(ops), "; ".join(snaps))
     return case, txt
 
+
+# every construction returns a NEW object (an empty formula shared between calls would be changed by += on one of them)
+for what, make in (("formula('')", lambda: formula("")), ("formula()", lambda: formula()), ("formula(None)", lambda: formula(None)),
+                   ("formula('H2O')", lambda: formula("H2O")), ("Formula()", lambda: Formula()), ("formula(' ')", lambda: formula(" "))):
+    a, b = make(), make()
+    if a is b:
+        a += formula("H2O")
+        c = make()
+        if c.atoms:
+            fail("C02:constructor-returns-shared-object", "%s returns one shared object: after a = %s; a += formula('H2O') a new %s has atoms %r"
+                 % (what, what, what, dict(c.atoms)), program="a = %s; b = %s; a += formula('H2O'); %s.atoms" % (what, what, what))
 
 cases, meta = [], []
 stats = dict(exact=0, rounded=0, ops={})
